@@ -615,6 +615,283 @@ def gen_dispatch():
     write_if_changed(os.path.join(GEN, 'Dispatch.lean'), '\n'.join(out))
     return []
 
+
+# ------------------------------------------------------------------------------------------ C01..C04
+SPACE = {'X': {'x', 'c', 'q', 'rx', 'hrx', 'dx', 'newx', 'x0'},
+         'Y': {'y', 'b', 'ry', 'hry', 'dy'},
+         'Z': {'z', 's', 'h', 'rz', 'hrz', 'dz', 'ds'}}
+GEMV = {'Af': 'A', 'Gf': 'G', 'fA': 'A', 'fG': 'G', 'fP': 'P'}
+COPY = {'xcopy', 'ycopy', 'blas.copy'}
+AXPY = {'xaxpy', 'yaxpy', 'blas.axpy'}
+SCAL = {'xscal', 'yscal', 'blas.scal'}
+DOT = {'xdot': 'dX', 'ydot': 'dY', 'misc.sdot': 'dZ'}
+
+def space_of(v):
+    for sp, names in SPACE.items():
+        if v in names: return sp
+    raise Untranslatable('vector `%s` has no declared space' % v)
+
+LEAN_KEYWORDS = {'by', 'at', 'from', 'fun', 'do', 'end', 'then', 'else', 'let', 'have', 'show', 'with', 'in', 'open', 'where'}
+def lname(n): return n + '_' if n in LEAN_KEYWORDS else n
+
+class StatT:
+    """translates the statistics block of a solver main loop into a chain of Lean `let`s"""
+    def __init__(self):
+        self.lines, self.defined, self.free, self.optional = [], set(), [], set()
+    def use(self, name):
+        name = lname(name)
+        if name not in self.defined and name not in self.free: self.free.append(name)
+        return name
+    def define(self, name): self.defined.add(lname(name))
+    def sc(self, node):
+        """scalar expression -> Lean term over K"""
+        if isinstance(node, ast.Constant) and isinstance(node.value, (int, float)) and not isinstance(node.value, bool):
+            fr = fractions.Fraction(node.value)
+            return '(%d : K)' % fr.numerator if fr.denominator == 1 else '((%d : K) / %d)' % (fr.numerator, fr.denominator)
+        if isinstance(node, ast.Name): return self.use(node.id)
+        if isinstance(node, ast.UnaryOp) and isinstance(node.op, ast.USub): return '(-%s)' % self.sc(node.operand)
+        if isinstance(node, ast.BinOp):
+            op = {ast.Add: '+', ast.Sub: '-', ast.Mult: '*', ast.Div: '/'}.get(type(node.op))
+            if op: return '(%s %s %s)' % (self.sc(node.left), op, self.sc(node.right))
+        if isinstance(node, ast.Call):
+            f = ast.unparse(node.func)
+            if f == 'max' and len(node.args) == 2: return '(max %s %s)' % (self.sc(node.args[0]), self.sc(node.args[1]))
+            if f == 'math.sqrt' and len(node.args) == 1 and isinstance(node.args[0], ast.Call):
+                g = node.args[0]; gf = ast.unparse(g.func)
+                if gf in ('xdot', 'ydot') and ast.unparse(g.args[0]) == ast.unparse(g.args[1]):
+                    v = self.use(ast.unparse(g.args[0]))
+                    return '(E.n%s %s)' % (space_of(v), v)
+            if f in ('misc.snrm2', 'blas.nrm2'):
+                v = self.use(ast.unparse(node.args[0])); return '(E.n%s %s)' % (space_of(v), v)
+            if f in DOT:
+                a, b = self.use(ast.unparse(node.args[0])), self.use(ast.unparse(node.args[1]))
+                return '(E.%s %s %s)' % (DOT[f], a, b)
+        raise Untranslatable('scalar expression `%s`' % ast.unparse(node))
+    def cond(self, node):
+        """test -> Lean Bool"""
+        if isinstance(node, ast.BoolOp):
+            op = ' && ' if isinstance(node.op, ast.And) else ' || '
+            return '(' + op.join(self.cond(v) for v in node.values) + ')'
+        if isinstance(node, ast.Compare) and len(node.ops) == 1:
+            l, o, r = node.left, node.ops[0], node.comparators[0]
+            if isinstance(o, (ast.IsNot, ast.Is)) and isinstance(r, ast.Constant) and r.value is None:
+                t = '(Option.isSome %s)' % self.use(ast.unparse(l))
+                return t if isinstance(o, ast.IsNot) else '(!%s)' % t
+            if isinstance(o, ast.Eq) and ast.unparse(l) == 'iters':
+                return '(iters == %s)' % self.use(ast.unparse(r))
+            sym = {ast.Lt: '<', ast.LtE: '≤', ast.Gt: '>', ast.GtE: '≥'}.get(type(o))
+            if sym:
+                if isinstance(l, ast.Name) and l.id in self.optional:
+                    return '(optCmp (fun a b => decide (a %s b)) %s %s)' % (sym, l.id, self.sc(r))
+                return '(decide (%s %s %s))' % (self.sc(l), sym, self.sc(r))
+        raise Untranslatable('condition `%s`' % ast.unparse(node))
+    def kw(self, call, name, default):
+        for k in call.keywords:
+            if k.arg == name: return k.value
+        return default
+    def stmt(self, st):
+        """returns False when the statement is not part of the statistics language"""
+        if isinstance(st, ast.Expr) and isinstance(st.value, ast.Call):
+            c = st.value; f = ast.unparse(c.func)
+            if f in GEMV:
+                u, v = ast.unparse(c.args[0]), ast.unparse(c.args[1])
+                alpha = self.kw(c, 'alpha', None); beta = self.kw(c, 'beta', None); trans = self.kw(c, 'trans', None)
+                a = self.sc(alpha) if alpha is not None else '(1 : K)'
+                bta = self.sc(beta) if beta is not None else '(0 : K)'
+                tr = trans.value if trans is not None else 'N'
+                op = 'E.%s%s' % (GEMV[f], 't' if tr == 'T' and GEMV[f] != 'P' else '')
+                self.use(u)
+                if beta is None: old = '0'
+                else: old = self.use(v)
+                self.lines.append('let %s := %s • %s %s + %s • %s' % (v, a, op, u, bta, old)); self.define(v); return True
+            if f in COPY:
+                u, v = ast.unparse(c.args[0]), ast.unparse(c.args[1])
+                self.lines.append('let %s := %s' % (v, self.use(u))); self.define(v); return True
+            if f in AXPY:
+                u, v = ast.unparse(c.args[0]), ast.unparse(c.args[1])
+                alpha = self.kw(c, 'alpha', None)
+                a = self.sc(alpha) if alpha is not None else '(1 : K)'
+                self.lines.append('let %s := %s + %s • %s' % (v, self.use(v), a, self.use(u))); self.define(v); return True
+            if f in SCAL:
+                a, v = c.args[0], ast.unparse(c.args[1])
+                self.lines.append('let %s := %s • %s' % (v, self.sc(a), self.use(v))); self.define(v); return True
+            return False
+        if isinstance(st, ast.Assign) and len(st.targets) == 1:
+            t = st.targets[0]
+            if isinstance(t, ast.Tuple) and isinstance(st.value, ast.Tuple):
+                vals = [self.sc(v) for v in st.value.elts]
+                for nm, v in zip(t.elts, vals):
+                    self.lines.append('let %s : K := %s' % (lname(nm.id), v)); self.define(nm.id)
+                return True
+            if isinstance(t, ast.Name):
+                self.lines.append('let %s : K := %s' % (lname(t.id), self.sc(st.value))); self.define(t.id); return True
+            return False
+        if isinstance(st, ast.If):
+            # optional scalar: every branch assigns the same single name, to an expression or None
+            def branch_val(body):
+                if len(body) == 1 and isinstance(body[0], ast.Assign) and isinstance(body[0].targets[0], ast.Name):
+                    v = body[0].value
+                    if isinstance(v, ast.Constant) and v.value is None: return body[0].targets[0].id, 'none'
+                    return body[0].targets[0].id, 'some ' + self.sc(v)
+                if len(body) == 1 and isinstance(body[0], ast.If): return chain(body[0])
+                return None
+            def chain(i):
+                a = branch_val(i.body); b = branch_val(i.orelse)
+                if a is None or b is None or a[0] != b[0]: return None
+                return a[0], 'if %s then %s else %s' % (self.cond(i.test), a[1], '(' + b[1] + ')' if b[1].startswith('if') else b[1])
+            r = chain(st)
+            if r is None: return False
+            self.lines.append('let %s : Option K := %s' % r); self.define(r[0]); self.optional.add(r[0]); return True
+        return False
+
+def decision_tree(T, ifnode, epilogue_prefix=()):
+    """the if/elif chain after the statistics -> Lean term of type `Branch`, plus the table of returns"""
+    returns = []
+    def leaf(body, pre):
+        # walk a block: collect rescaling statements until a Return / nested If with returns
+        pre = list(pre)
+        env = {}
+        for st in body:
+            if isinstance(st, ast.Return):
+                idx = len(returns)
+                d = {}
+                if isinstance(st.value, ast.Dict):
+                    for k, v in zip(st.value.keys, st.value.values):
+                        src = ast.unparse(v)
+                        if isinstance(v, ast.Name) and v.id in env: src = repr(env[v.id])
+                        d[k.value] = src
+                returns.append({'fields': d, 'epilogue': pre})
+                return '(Branch.ret %d)' % idx
+            if isinstance(st, ast.Assign) and isinstance(st.targets[0], ast.Name) and isinstance(st.value, ast.Constant) \
+               and isinstance(st.value.value, str):
+                env[st.targets[0].id] = st.value.value; continue
+            if isinstance(st, ast.If):
+                has_ret = any(isinstance(x, ast.Return) for x in ast.walk(st))
+                sets_status = any(isinstance(x, ast.Assign) and ast.unparse(x.targets[0]) == 'status' for x in ast.walk(st))
+                if has_ret:
+                    a = leaf(st.body, pre); b = leaf(st.orelse, pre) if st.orelse else None
+                    if b is None: raise Untranslatable('if without else around return')
+                    return '(if %s then %s else %s)' % (T.cond(st.test), a, b)
+                if sets_status:
+                    # `if iters == MAXITERS: status = 'unknown' else: status = 'optimal'` followed by one return
+                    rest = body[body.index(st) + 1:]
+                    def with_status(blk):
+                        e2 = [x for x in blk if isinstance(x, ast.Assign) and ast.unparse(x.targets[0]) == 'status']
+                        return leaf([e2[0]] + rest, pre) if e2 else None
+                    a, b = with_status(st.body), with_status(st.orelse)
+                    if a is None or b is None: raise Untranslatable('status assignment block')
+                    return '(if %s then %s else %s)' % (T.cond(st.test), a, b)
+                continue
+            if isinstance(st, ast.Expr) and isinstance(st.value, ast.Call):
+                f = ast.unparse(st.value.func)
+                if f in SCAL:
+                    pre.append(('scal', ast.unparse(st.value.args[1]), st.value.args[0])); continue
+                if f == 'print': continue
+            if isinstance(st, ast.For) and any(ast.unparse(x).startswith('misc.symm(') for x in ast.walk(st) if isinstance(x, ast.Call)):
+                for x in ast.walk(st):
+                    if isinstance(x, ast.Call) and ast.unparse(x.func) == 'misc.symm': pre.append(('symm', ast.unparse(x.args[0]), None))
+                continue
+            if isinstance(st, ast.Assign): continue        # ind = ..., ts = misc.max_step(...), y, z = None, None
+            raise Untranslatable('statement before return: ' + ast.unparse(st)[:80])
+        return 'Branch.continue_'
+    def chain(i):
+        a = leaf(i.body, epilogue_prefix)
+        if len(i.orelse) == 1 and isinstance(i.orelse[0], ast.If) and any(isinstance(x, ast.Return) for x in ast.walk(i.orelse[0])):
+            b = chain(i.orelse[0])
+        elif not i.orelse: b = 'Branch.continue_'
+        else: b = leaf(i.orelse, epilogue_prefix)
+        return '(if %s then %s else %s)' % (T.cond(i.test), a, b)
+    return chain(ifnode), returns
+
+def gen_decide_solver(mod, name, stats_fields):
+    fn = find_func(load(mod), name)
+    loop = None
+    for n in fn.body:
+        if isinstance(n, ast.For) and isinstance(n.target, ast.Name) and n.target.id == 'iters': loop = n
+    if loop is None: raise Untranslatable('main loop of %s not found' % name)
+    T = StatT()
+    decision = None
+    for st in loop.body:
+        if isinstance(st, ast.If) and any(isinstance(x, ast.Return) for x in ast.walk(st)) and \
+           any(isinstance(x, ast.Name) and x.id in ('FEASTOL', 'ABSTOL') for x in ast.walk(st.test)):
+            decision = st; break
+        if isinstance(st, ast.If) and ast.unparse(st.test) == 'show_progress': continue
+        if not T.stmt(st):
+            raise Untranslatable('%s: statement in the statistics block: %s' % (name, ast.unparse(st)[:100]))
+    if decision is None: raise Untranslatable('stopping test of %s not found' % name)
+    stats_lines = list(T.lines)
+    stats_fields[:] = [lname(f) for f in stats_fields]
+    missing = [f for f in stats_fields if f not in T.defined]
+    if missing: raise Untranslatable('%s: statistics %s are not computed in the block' % (name, missing))
+    # decision uses its own translator state so that its free names become parameters
+    D = StatT(); D.optional = set(T.optional); D.defined = set()
+    tree, returns = decision_tree(D, decision)
+    return T, stats_lines, D, tree, returns
+
+def gen_decide():
+    out = ['/- GENERATED by tools/translate/py2lean.py (gen_decide) from /repo/src/python/coneprog.py. Do not edit. -/',
+           'import CvxVerif.Model.LinAlgMachine', 'set_option linter.unusedVariables false',
+           'namespace CvxVerif.Gen.Decide', 'open CvxVerif.LAM', '']
+    for mod, name, stats_fields in [('coneprog', 'conelp', ['pcost', 'dcost', 'relgap', 'pres', 'dres', 'pinfres', 'dinfres', 'cx', 'by', 'hz', 'hresx', 'hresy', 'hresz', 'resx', 'resy', 'resz']),
+                                    ('coneprog', 'coneqp', ['pcost', 'dcost', 'relgap', 'pres', 'dres', 'resx', 'resy', 'resz'])]:
+        T, stats_lines, D, tree, returns = gen_decide_solver(mod, name, stats_fields)
+        vec_free = [v for v in T.free if any(v in s for s in SPACE.values())]
+        sc_free = [v for v in T.free if v not in vec_free]
+        out.append('namespace %s' % name)
+        out.append('section')
+        out.append('variable {K X Y Z : Type} [Field K] [LinearOrder K] [IsStrictOrderedRing K]')
+        out.append('  [AddCommGroup X] [Module K X] [AddCommGroup Y] [Module K Y] [AddCommGroup Z] [Module K Z]')
+        out.append('/-- values read by the statistics block: iterates, data, work vectors, scalars -/')
+        out.append('structure In (K X Y Z : Type) where')
+        for v in vec_free: out.append('  %s : %s' % (v, space_of(v)))
+        for v in sc_free: out.append('  %s : K' % v)
+        opt = [f for f in stats_fields if f in T.optional]
+        out.append('structure Stats (K : Type) where')
+        for f in stats_fields: out.append('  %s : %s' % (f, 'Option K' if f in T.optional else 'K'))
+        out.append('/-- the statistics block of the main loop of `%s`, statement by statement -/' % name)
+        out.append('def stats (E : Env K X Y Z) (i : In K X Y Z) : Stats K :=')
+        for v in vec_free + sc_free: out.append('  let %s := i.%s' % (v, v))
+        for l in stats_lines: out.append('  ' + l)
+        out.append('  { ' + ', '.join('%s := %s' % (f, f) for f in stats_fields) + ' }')
+        # decision
+        dfree = sorted(v for v in D.free if v not in ('iters',))
+        params = []
+        for v in dfree:
+            params.append('(%s : %s)' % (v, 'Nat' if v == 'MAXITERS' else ('Option K' if v in D.optional else 'K')))
+        out.append('inductive Branch where | ret (k : Nat) | continue_')
+        out.append('deriving DecidableEq, Repr')
+        out.append('/-- the stopping test that follows the statistics; `ret k` = the k-th `return` of the block -/')
+        out.append('def branch %s (iters : Nat) : Branch :=' % ' '.join(params))
+        out.append('  ' + tree)
+        out.append('def branchParams : List String := ' + llist(map(lstr, dfree)))
+        # returns: field maps and epilogues
+        rows = []
+        for k, r in enumerate(returns):
+            fields = llist('(%s, %s)' % (lstr(a), lstr(b)) for a, b in r['fields'].items())
+            epi = llist('(%s, %s, %s)' % (lstr(kind), lstr(v), lstr(ast.unparse(e)) if e is not None else lstr(''))
+                        for kind, v, e in r['epilogue'])
+            rows.append('  (%s, %s)' % (fields, epi))
+        out.append('/-- for each `return`: the result dictionary (key, source expression) and the in-place rescalings that precede it -/')
+        out.append('def returns : List (List (String × String) × List (String × String × String)) := [\n' + ',\n'.join(rows) + ' ]')
+        # executable epilogues: scaling factors applied to x, y, s, z before return k
+        for k, r in enumerate(returns):
+            ET2 = StatT()
+            lines = []
+            for kind, v, e in r['epilogue']:
+                if kind == 'scal': lines.append('let %s := %s • %s' % (v, ET2.sc(e), ET2.use(v)))
+            used = [v for v in ['x', 'y', 's', 'z'] if v in ET2.free or any(l.startswith('let %s ' % v) for l in lines)]
+            scal_free = sorted(v for v in ET2.free if v not in ('x', 'y', 's', 'z'))
+            out.append('/-- in-place rescaling of the iterates before `return` number %d -/' % k)
+            out.append('def epilogue%d (x : X) (y : Y) (s z : Z) %s : X × Y × Z × Z :=' % (k, ' '.join('(%s : K)' % v for v in scal_free)))
+            for l in lines: out.append('  ' + l)
+            out.append('  (x, y, s, z)')
+            out.append('def epilogue%dParams : List String := %s' % (k, llist(map(lstr, scal_free))))
+        out.append('end')
+        out.append('end %s\n' % name)
+    out.append('end CvxVerif.Gen.Decide\n')
+    write_if_changed(os.path.join(GEN, 'Decide.lean'), '\n'.join(out))
+    return []
+
 if __name__ == '__main__':
     which = sys.argv[1:] or ['options']
     for w in which:
